@@ -34,6 +34,7 @@ Why(c) ==
   ELSE IF \E j \in DOMAIN c.rows : ~c.rows[j].dead THEN (IF c.id = "cycle" THEN "bound-signal-changes-across-a-subscription-cycle"
                                                              ELSE IF c.id = "reuse" THEN "bound-signal-of-a-dead-instance-handed-to-a-new-instance"
                                                              ELSE IF c.id = "private" THEN "private-signals-of-base-and-subclass-share-a-bound-signal"
+                                                             ELSE IF c.id = "context" THEN "bound-signal-of-a-context-changes-over-its-life-cycle"
                                                              ELSE "binding-keeps-the-owner-alive") ELSE ""
 Report == LET c == Cases[i] w == Why(c) IN
           PrintT(ToJson([end |-> c.id, ok |-> (w = ""), step |-> 1, why |-> w, hits |-> <<>>]))
